@@ -109,6 +109,10 @@ func checkSound(c *facet.Ctx, in Case) error {
 		c.Label("concrete-failed")
 		return nil
 	}
+	if conc.Val == cty.NilVal || !conc.Val.IsWhollyKnown() {
+		// the converse clause, also checked here because the comparison below needs a wholly-known concrete result
+		return fail("not-wholly-known", "every argument is wholly known but the concrete result %#v is not", conc.Val)
+	}
 	weakened := !whollyKnownSpecs(in.Weak)
 	for _, k := range in.Kinds {
 		c.Label("weak=" + k)
@@ -281,9 +285,9 @@ func init() {
 	for _, p := range parts {
 		es := p.es
 		n := len(es)
-		per := 3000
+		per := 5000
 		if n <= 2 {
-			per = 10000
+			per = 15000
 		}
 		facet.Register(facet.F[Case]{
 			Prop: "C12", Name: "sound/" + p.name,
@@ -291,7 +295,7 @@ func init() {
 				"weakened by gen.Weaken(allowDyn=false): any sub-value at any depth replaced by a typed unknown that admits it (unrefined; not-null; numeric bounds inclusive/exclusive incl. ties; " +
 				"true string prefix; length bounds incl. empty witnesses; set members). Non-trivial: the concrete call succeeded and >= 1 part was weakened. " +
 				"Labels fn= / nt= / cf= (concrete call failed) per function, weak=<kind>, out=<class of the weakened result>. Distinct = hash of the input JSON.",
-			Quick: per * n, Thorough: per * n * 5, Shards: 4,
+			Quick: per * n, Thorough: per * n * 5 / 2, Shards: 4,
 			Gen:   genSound(es),
 			Check: checkSound,
 		})
@@ -314,7 +318,7 @@ func init() {
 			Prop: "C12", Name: "converse/" + g.name,
 			Rule: "function drawn uniformly from {" + names(es) + "}; wholly-known unmarked arguments: the in-domain list, in 1 case of 3 with 1-2 known-preserving hostile edits. " +
 				"Non-trivial: the call succeeded (then the result must be wholly known). Labels fn= / nt= per function (the difference is the number of failed calls). Distinct = hash of the input JSON.",
-			Quick: 1500 * n, Thorough: 7500 * n, Shards: 4,
+			Quick: 2500 * n, Thorough: 7500 * n, Shards: 4,
 			Gen:   genConverse(es),
 			Check: checkConverse,
 		})
